@@ -19,6 +19,8 @@ pub use self::collisions::MeshCollisionSet;
 use crate::geom3::Aabb3;
 use crate::{Iso3, Point2, Point3, Result, SurfacePoint3, UnitVec3, Vector3};
 pub use edges::MeshEdges;
+#[cfg(feature = "verif")]
+pub use self::conformal::verif as conformal_verif;
 use parry3d_f64::shape::{TriMesh, TriMeshFlags};
 use parry3d_f64::transformation;
 
